@@ -23,7 +23,7 @@ from puresnmp.adt import (
     V3Flags,
 )
 from puresnmp.credentials import V3, Credentials
-from puresnmp.exc import SnmpError
+from puresnmp.exc import ErrorResponse, SnmpError
 from puresnmp.pdu import GetRequest, PDUContent, Report
 from puresnmp.plugins.security import SecurityModel
 from puresnmp.transport import MESSAGE_MAX_SIZE
@@ -650,7 +650,15 @@ def validate_usm_message(message: PlainMessage) -> None:
         # The usmStats counters are ordinary MIB objects. Outside of a Report
         # they are data (f.ex. when walking the usmStats subtree).
         return
-    pdu = message.scoped_pdu.data.value
+    try:
+        pdu = message.scoped_pdu.data.value
+    except ErrorResponse as exc:
+        # A report is never the answer to a request, whatever its
+        # error-status says. It must not be mistaken for an error *response*
+        # (f.ex. an unauthenticated "noSuchName" would silently end a walk).
+        raise SnmpError(
+            f"Unexpected report from remote device ({exc})"
+        ) from exc
     errors = {
         ObjectIdentifier(
             "1.3.6.1.6.3.15.1.1.1.0"
